@@ -280,6 +280,14 @@ impl DocumentBuilder {
             .name_id_builder
             .element_name_id(&prefix, &name, prefix.into(), xot)?;
         let current_node = xot.arena.get(self.current_node_id).unwrap();
+        // an end tag without any open element (possible in a fragment)
+        if current_node.parent().is_none() {
+            return Err(ParseError::InvalidCloseTag(
+                prefix.to_string(),
+                name.to_string(),
+                Span::from_prefix_name(prefix, name),
+            ));
+        }
         if let Value::Element(element) = current_node.get() {
             if element.name_id != name_id {
                 return Err(ParseError::InvalidCloseTag(
